@@ -78,9 +78,11 @@ def mainRetracted (c : Chan) (height : Nat) : Scope :=
                 confIn := mainRetractConfIn mconfs c.main.confIn,
                 scid := mainRetractScid mconfs c.main.scid }
 
-/-- `funding_tx_confirmations == 0 && was_confirmed` for a ready channel with minimum_depth > 0 => Err (force-close) -/
+/-- the force-close decision "Funding transaction was un-confirmed" of do_best_block_updated for a channel in
+    ChannelReady state: the TRANSLATED guard (Generated mainCloseGuard: state, `confs == 0 && was_confirmed`,
+    minimum_depth) with was_confirmed = funding_tx_confirmed_in.is_some() BEFORE the retraction block -/
 def mainUnconfirmedCloses (c : Chan) (height : Nat) : Bool :=
-  confirmations c.main.confHeight height == 0 && c.main.confIn && c.minDepth > 0
+  mainCloseGuard true false (confirmations c.main.confHeight height) c.main.confIn c.minDepth
 
 /-- mirrors FundedChannel::do_best_block_updated (ready channel, no holding-cell HTLCs): main funding retraction
     (=> force-close for a ready non-zero-conf channel), then the pending-splice section. Returns the splice_locked txid. -/
@@ -90,16 +92,17 @@ def chanBestBlockUpdated (c : Chan) (height : Nat) : Chan × Option Nat :=
   else spliceSection { c with main := mainRetracted c height } height
 
 /-- the candidate loop of FundedChannel::transactions_confirmed for ONE transaction `t` of a block at `height`:
-    state = (candidates processed so far (reversed), confirmed_funding_index as the scope, funding_already_confirmed, error) -/
+    state = (candidates processed so far (reversed), confirmed_funding_index as the scope, funding_already_confirmed, error);
+    the two-confirmations test and the funding_already_confirmed mark are the TRANSLATED confirmLoopErr / confirmLoopMark -/
 def confirmLoop (t height : Nat) : List Scope → List Scope × Option Scope × Bool × Bool → List Scope × Option Scope × Bool × Bool
   | [], acc => acc
   | f :: rest, (done, idx, already, err) =>
     if err then confirmLoop t height rest (f :: done, idx, already, err)
     else if confirmGuard f.confHeight && f.txid == t then
       let f' : Scope := { f with confHeight := height, confIn := true, scid := true }
-      if already || idx.isSome then confirmLoop t height rest (f' :: done, idx, already, true)
+      if confirmLoopErr already idx.isSome then confirmLoop t height rest (f' :: done, idx, already, true)
       else confirmLoop t height rest (f' :: done, some f', already, err)
-    else if f.confHeight != 0 then confirmLoop t height rest (f :: done, idx, true, err)
+    else if confirmLoopMark f.confHeight then confirmLoop t height rest (f :: done, idx, true, err)
     else confirmLoop t height rest (f :: done, idx, already, err)
 
 /-- mirrors FundedChannel::transactions_confirmed for the transactions `ids` of one block (ready channel): the main
@@ -205,7 +208,7 @@ def preCheckReady (p : Pre) (height : Nat) : Pre × Bool :=
 /-- the tail of do_best_block_updated after check_get_channel_ready answered `r` -/
 def preFinish (r : Pre × Bool) (confs : Nat) (was : Bool) : Pre × Bool :=
   if r.2 then r
-  else if r.1.ourReady && confs == 0 && was && r.1.minDepth > 0 then ({ r.1 with closed := true }, false)
+  else if mainCloseGuard false r.1.ourReady confs was r.1.minDepth then ({ r.1 with closed := true }, false)
   else r
 
 /-- mirrors FundedChannel::do_best_block_updated before channel_ready: retraction, check_get_channel_ready (early
